@@ -107,18 +107,23 @@ Proof.
   intros (Hs & Hwx & Hwy & Hfx & Hfy) Hra Hrb Hb. unfold div_raw_elem.
   assert (Hnfr: nf (grow_truediv fx fy) = nf fx + n_int fy) by reflexivity.
   pose proof (n_int_width fy) as Ny.
-  assert (Hpc: precision_cast (nf (grow_truediv fx fy)) = false).
-  { unfold precision_cast. rewrite Hnfr. destruct (sg fy); lia. }
-  rewrite Hpc. cbn [cast_if]. fold (truediv_k fx fy). unfold truediv_floor. rewrite truediv_k_eq.
+  cbv zeta. fold (truediv_k fx fy). unfold truediv_floor. rewrite truediv_k_eq.
   set (k := nw fy - (if sg fy then 1 else 0)). assert (Hk: 0 <= k <= 26) by (unfold k; destruct (sg fy); lia).
+  replace (0 <=? k) with true by lia.
+  assert (Hrc: raw_cast (storage fx) (storage fy) (Z.max (nw fx + Z.max k 0) (nw fy + Z.max (- k) 0)) = false).
+  { unfold raw_cast. replace (64 <=? Z.max (nw fx + Z.max k 0) (nw fy + Z.max (- k) 0)) with false by lia.
+    replace (53 <? Z.max (nw fx + Z.max k 0) (nw fy + Z.max (- k) 0)) with false by lia. rewrite andb_false_r. reflexivity. }
+  rewrite Hrc. cbn [cast_if].
   rewrite !storage_small by lia. rewrite <- Hs.
+  assert (Hplain: forall v, match v with MI z => Z.abs z * 2^k < 2^63 | MU z => 0 <= z /\ z * 2^k < 2^63 | MF _ => True | MO _ => False end ->
+            mscale_raw false v k = mscale v k) by (intros v Hv; apply mscale_raw_plain; [lia|exact Hv]).
   assert (Pk: 0 < 2^k <= 2^26) by (split; [apply pow2_pos; lia | apply pow2_le; lia]).
   assert (E26: 2^26 < 2^63) by (apply pow2_lt; lia). assert (E52: 2^26 * 2^26 = 2^52) by reflexivity. assert (E5263: 2^52 < 2^63) by (apply pow2_lt; lia).
   assert (E64: 2^63 < 2^64) by (apply pow2_lt; lia).
   destruct (code_mag fx a ltac:(lia) Hra) as (Sa & Ua).
-  unfold mscale. replace (0 <=? k) with true by lia.
   destruct (sg fx) eqn:Esx; cbn [load].
   - specialize (Sa eq_refl). assert (2^(nw fx - 1) <= 2^26) by (apply pow2_le; lia).
+    rewrite Hplain by (cbv beta iota; nia). unfold mscale. replace (0 <=? k) with true by lia.
     unfold fits_i64. replace (- 2^63 <=? 2^k) with true by lia. replace (2^k <? 2^63) with true by lia. cbn [andb bind mfloordiv].
     assert (Hn: Z.abs (a * 2^k) < 2^63) by (rewrite Z.abs_mul, (Z.abs_eq (2^k)) by lia; nia).
     rewrite (wrap_i64_small (a * 2^k)) by exact Hn.
@@ -127,6 +132,7 @@ Proof.
     rewrite wrap_i64_small by lia. reflexivity.
   - specialize (Ua eq_refl). assert (2^(nw fx) <= 2^26) by (apply pow2_le; lia).
     destruct (code_mag fy b ltac:(lia) Hrb) as (_ & Ub). rewrite <- Hs in Ub. specialize (Ub eq_refl).
+    rewrite Hplain by (cbv beta iota; split; nia). unfold mscale. replace (0 <=? k) with true by lia.
     unfold fits_u64. replace (0 <=? 2^k) with true by lia. replace (2^k <? 2^64) with true by lia. cbn [andb bind mfloordiv].
     assert (Hn: 0 <= a * 2^k < 2^63) by nia.
     rewrite (wrap_u64_small (a * 2^k)) by lia.
